@@ -103,8 +103,33 @@ impl Val for R {
     }
 }
 
+/// like `R`, but the value computed by the load panics in its destructor when it is dropped as the
+/// redundant entry (i.e. inside the map's insert, while the shard lock is held -- which poisons a
+/// std lock); the cache must stay a usable map afterwards
+pub struct RP(pub i64, pub Tracked, pub bool);
+pub static RP_ARMED: std::sync::atomic::AtomicBool = std::sync::atomic::AtomicBool::new(false);
+impl Drop for RP {
+    fn drop(&mut self) {
+        if self.2 && RP_ARMED.load(std::sync::atomic::Ordering::SeqCst) && !std::thread::panicking() {
+            panic!("destructor of the redundant value panics");
+        }
+    }
+}
+impl Compound for RP {
+    fn load(cache: AnyCache, id: &SharedString) -> Result<Self, BoxedError> {
+        let first = cache.get_or_insert::<RP>(id, RP(500, Tracked::new(), false)).read().0;
+        Ok(RP(first + 1, Tracked::new(), true))
+    }
+}
+impl Val for RP {
+    fn val(&self) -> i64 {
+        self.0
+    }
+}
+
 #[derive(Clone, Copy, PartialEq, Eq, PartialOrd, Ord, Debug, Hash)]
 pub enum Ty {
+    RP,
     R,
     A1,
     A2,
@@ -134,6 +159,9 @@ pub fn alphabet() -> Vec<Op> {
             v.push(Op::Load(t, id));
             v.push(Op::Owned(t, id));
         }
+        v.push(Op::Load(Ty::RP, id));
+        v.push(Op::Cached(Ty::RP, id));
+        v.push(Op::Take(Ty::RP, id));
         v.push(Op::Load(Ty::R, id));
         v.push(Op::Owned(Ty::R, id));
         v.push(Op::Cached(Ty::R, id));
@@ -272,6 +300,7 @@ pub fn apply<F: Fe>(fe: &mut F, any: bool, op: &Op) -> String {
     macro_rules! by_ty {
         ($ty:expr, $m:ident) => {
             match $ty {
+                Ty::RP => $m!(RP),
                 Ty::R => $m!(R),
                 Ty::A1 => $m!(A1),
                 Ty::A2 => $m!(A2),
@@ -366,6 +395,9 @@ pub fn apply<F: Fe>(fe: &mut F, any: bool, op: &Op) -> String {
         Op::Goi(t, id, v) => {
             macro_rules! m {
                 (DIR) => {
+                    unreachable!()
+                };
+                (RP) => {
                     unreachable!()
                 };
                 ($t:ident) => {{
@@ -479,6 +511,12 @@ impl Model {
             }
         }
         let v = match t {
+            Ty::RP => {
+                // stores 500 first; the computed value is dropped as redundant inside the insert and
+                // its destructor panics: the call panics, the stored 500 stays
+                self.map.entry((Ty::RP, id.to_string())).or_insert(500);
+                return Err("PANIC".into());
+            }
             Ty::R => {
                 // the load stores 500 under its own key first (if absent), then offers first+1:
                 // a cached `load` must keep (and return) the value stored first; `load_owned`
@@ -568,6 +606,7 @@ fn matrix<F: Fe>(fe: &F, any: bool) -> Model {
                 }
             }};
         }
+        g!(RP);
         g!(R);
         g!(A1);
         g!(A2);
@@ -597,10 +636,13 @@ fn run_on<F: Fe>(mut fe: F, any: bool, w: &WorldSpec, ops: &[Op]) -> Outcome {
     let mut violation = None;
     for (i, op) in ops.iter().enumerate() {
         // a panic out of the cache (e.g. "wrong handle type") is an observation, not a crash of the checker
+        RP_ARMED.store(matches!(op, Op::Load(Ty::RP, _)), std::sync::atomic::Ordering::SeqCst);
         let real = match std::panic::catch_unwind(std::panic::AssertUnwindSafe(|| apply(&mut fe, any, op))) {
             Ok(r) => r,
+            Err(_) if matches!(op, Op::Load(Ty::RP, _)) => "PANIC".to_string(),
             Err(e) => format!("PANIC({})", e.downcast_ref::<String>().cloned().or_else(|| e.downcast_ref::<&str>().map(|s| s.to_string())).unwrap_or_default()),
         };
+        RP_ARMED.store(false, std::sync::atomic::Ordering::SeqCst);
         let exp = model.apply(w, op);
         obs.push(real.clone());
         if real != exp && violation.is_none() {
